@@ -30,6 +30,17 @@ pub fn dec(b: &[u8]) -> Result<Packet, String> {
     Packet::from_bytes(&mut o).map_err(|e| format!("{:?}", e))
 }
 
+/// "any value the library can build": what the library's own send paths can produce
+fn library_can_build(p: &Packet) -> bool {
+    match p {
+        Packet::ReliableSlice { slice, .. } | Packet::UnreliableSlice { slice, .. } => {
+            slice.slice_index < slice.num_slices && !slice.payload.is_empty() && slice.payload.len() <= 1200
+        }
+        Packet::Ack { ack_ranges, .. } => !ack_ranges.is_empty() && ack_ranges.len() <= 64 && ack_ranges.iter().all(|r| r.start < r.end) && ack_ranges.windows(2).all(|w| w[0].end < w[1].start),
+        _ => true,
+    }
+}
+
 /// value -> bytes -> value
 fn roundtrip_value(p: &Packet) -> Option<Violation> {
     let kind = kind_of(p);
@@ -40,6 +51,9 @@ fn roundtrip_value(p: &Packet) -> Option<Violation> {
     };
     match crate::link::guard("from_bytes", || dec(&bytes)) {
         Err(v) => Some(Violation::new(format!("C16/decode-panics/{}", kind), v.message)),
+        // a value no honest sender ever builds (slice index beyond the slice count, empty or over-long slice
+        // payload) may be refused by the decoder; if it is accepted it must still round-trip
+        Ok(Err(_)) if !library_can_build(p) => None,
         Ok(Err(e)) => Some(Violation::new(
             format!("C16/own-encoding-does-not-decode/{}", kind),
             format!("{} serialized to {} bytes that fail to decode: {}", short(p), bytes.len(), e),
@@ -172,8 +186,12 @@ pub fn renet_values(tier: Tier) -> Vec<Packet> {
                 });
             }
             for &message_id in &CLASSES {
-                for &si in &CLASSES {
-                    for num_slices in [1usize, 63, 64, 16_383, 16_384, 1_000_000] {
+                for num_slices in [1usize, 63, 64, 16_383, 16_384, 1_000_000] {
+                    let mut sis: Vec<u64> = CLASSES.to_vec();
+                    sis.extend([0u64, num_slices as u64 / 2, num_slices as u64 - 1, num_slices as u64 - 1 - (num_slices as u64 > 1) as u64]);
+                    sis.sort();
+                    sis.dedup();
+                    for &si in &sis {
                         for plen in [1usize, 1199, 1200] {
                             let slice = Slice {
                                 message_id,
